@@ -912,7 +912,7 @@ fn recase(rng: &mut Rng, s: &str) -> String {
 }
 
 /// One command as a user might type it.
-fn spell_cmd(rng: &mut Rng, c: &Cmd) -> String {
+pub fn spell_cmd(rng: &mut Rng, c: &Cmd) -> String {
     let pick = |rng: &mut Rng, xs: &[&str]| -> String { let i = rng.below(xs.len() as u64) as usize; recase(rng, xs[i]) };
     let sp = |rng: &mut Rng| -> String { " ".repeat(1 + rng.below(3) as usize) };
     let body = match c {
